@@ -630,6 +630,24 @@ theorem kill_without_sync_loses_balance (s : State) (b : Bal) (D : Int → Prop)
   intro e
   exact hne (Option.some.inj e).symm
 
+/-! #### renaming / re-assigning a slot -/
+
+/-- `cache.SetUserID` on any slot, valid or not: SHM money and `.PASSWDS` are exactly as before, so every agreement
+that held still holds with the same balances; it fails exactly on the slots outside `1..MAX_USERS`. -/
+theorem setuserid_touches_no_balance (s : State) (b : Bal) (D : Int → Prop) (u : Int) :
+    (setUserID s u).1 = s ∧ (Agree s b D → Agree (setUserID s u).1 b D) ∧
+    ((setUserID s u).2 = .none ↔ Valid u) := by
+  have e : (setUserID s u).1 = s := by unfold setUserID; split <;> rfl
+  refine ⟨e, fun h => by rw [e]; exact h, ?_⟩
+  unfold setUserID Valid
+  split
+  · constructor
+    · intro h; cases h
+    · intro h; omega
+  · constructor
+    · intro _; omega
+    · intro _; rfl
+
 /-! #### field writers (password, e-mail) on a user whose money moves -/
 
 /-- what the source says: every function of package `ptt` that writes `.PASSWDS` does so through a cmbbs field
